@@ -500,7 +500,7 @@ func (g *ProgGen) elem(t GT, d int) string {
 func (g *ProgGen) callOf(t GT, d int) string {
 	var cands []gfunc
 	for _, f := range g.funcs {
-		if f.ret == t && (g.inFunc == nil || f.name != g.inFunc.name) {
+		if f.ret == t && (g.inFunc == nil || f.name < g.inFunc.name) {
 			cands = append(cands, f)
 		}
 	}
@@ -672,7 +672,7 @@ func (g *ProgGen) Stmt(indent, depth int) {
 			// call a procedure
 			var procs []gfunc
 			for _, f := range g.funcs {
-				if f.ret == "" && (g.inFunc == nil || f.name != g.inFunc.name) {
+				if f.ret == "" && (g.inFunc == nil || f.name < g.inFunc.name) {
 					procs = append(procs, f)
 				}
 			}
